@@ -728,14 +728,22 @@ def filtered_collection(fv, name, at):
     satisfies a condition, written either as ``[x for x in SRC if COND]`` or as
     ``name = []; for x in SRC: if COND: name.append(x)``.
     Returns (source text, condition text with the element variable replaced by ``_``, defining statement) or None."""
+    r = filtered_collection_defs(fv, name, at)
+    if r is None or len(r) != 1 or r[0][1] is None:
+        return None
+    return r[0]
+
+
+def filtered_collection_defs(fv, name, at):
+    """like filtered_collection, for every definition of ``name`` that reaches ``at``: a list of (source text, condition text
+    or None for an unfiltered copy of the source (list(SRC), SRC[:], [x for x in SRC]), defining statement); None when one
+    of the definitions is neither"""
     node = fv.node_of(at)
     if node is None:
         return None
     defs = [d for d in fv.defs_reaching(name, node) if d.stmt is not None]
-    if len(defs) != 1:
+    if not defs or len(defs) != len(fv.defs_reaching(name, node)):
         return None
-    d = defs[0]
-    v = fv.value_of_def(d, name)
 
     def norm(cond, var):
         class R(ast.NodeTransformer):
@@ -744,31 +752,46 @@ def filtered_collection(fv, name, at):
 
         return U(R().visit(copy.deepcopy(cond)))
 
-    if isinstance(v, ast.ListComp) and len(v.generators) == 1 and isinstance(v.generators[0].target, ast.Name):
-        g = v.generators[0]
-        if U(v.elt) == g.target.id and len(g.ifs) == 1:
-            return U(g.iter), norm(g.ifs[0], g.target.id), d.stmt
+    out = []
+    for d in defs:
+        v = fv.value_of_def(d, name)
+        if isinstance(v, ast.Call) and dotted_name(v.func) in ("list", "tuple") and len(v.args) == 1 and not v.keywords:
+            out.append((U(v.args[0]), None, d.stmt))
+            continue
+        if isinstance(v, ast.Subscript) and isinstance(v.slice, ast.Slice) and v.slice.lower is None and v.slice.upper is None and v.slice.step is None:
+            out.append((U(v.value), None, d.stmt))
+            continue
+        if isinstance(v, ast.ListComp) and len(v.generators) == 1 and isinstance(v.generators[0].target, ast.Name):
+            g = v.generators[0]
+            if U(v.elt) == g.target.id and len(g.ifs) == 1:
+                out.append((U(g.iter), norm(g.ifs[0], g.target.id), d.stmt))
+                continue
+            if U(v.elt) == g.target.id and not g.ifs:
+                out.append((U(g.iter), None, d.stmt))
+                continue
+            return None
+        if isinstance(v, ast.List) and not v.elts:
+            si = stmt_index(fv)
+            apps = [c for c in fv.calls() if isinstance(c.func, ast.Attribute) and c.func.attr == "append" and U(c.func.value) == name
+                    and d in fv.defs_reaching(name, fv.node_of(c))]
+            others = [c for c in fv.calls() if isinstance(c.func, ast.Attribute) and U(c.func.value) == name and c.func.attr in MUTATORS - {"append"}]
+            if len(apps) != 1 or others:
+                return None
+            c = apps[0]
+            lpq = si.enclosing(c, (ast.For,))
+            if lpq is None or not isinstance(lpq[0].target, ast.Name):
+                return None
+            lp = lpq[0]
+            var = lp.target.id
+            if len(c.args) != 1 or U(c.args[0]) != var:
+                return None
+            conds = [(t, p) for t, p in si.effective_guards(c) if any(x is t for x in ast.walk(lp))]
+            if len(conds) != 1 or not conds[0][1]:
+                return None
+            out.append((U(lp.iter), norm(conds[0][0], var), d.stmt))
+            continue
         return None
-    if isinstance(v, ast.List) and not v.elts:
-        si = stmt_index(fv)
-        apps = [c for c in fv.calls() if isinstance(c.func, ast.Attribute) and c.func.attr == "append" and U(c.func.value) == name
-                and d in fv.defs_reaching(name, fv.node_of(c))]
-        others = [c for c in fv.calls() if isinstance(c.func, ast.Attribute) and U(c.func.value) == name and c.func.attr in MUTATORS - {"append"}]
-        if len(apps) != 1 or others:
-            return None
-        c = apps[0]
-        lpq = si.enclosing(c, (ast.For,))
-        if lpq is None or not isinstance(lpq[0].target, ast.Name):
-            return None
-        lp = lpq[0]
-        var = lp.target.id
-        if len(c.args) != 1 or U(c.args[0]) != var:
-            return None
-        conds = [(t, p) for t, p in si.effective_guards(c) if any(x is t for x in ast.walk(lp))]
-        if len(conds) != 1 or not conds[0][1]:
-            return None
-        return U(lp.iter), norm(conds[0][0], var), d.stmt
-    return None
+    return out
 
 
 def loop_as_comprehension(loop: ast.For, result: str):
@@ -1223,4 +1246,269 @@ def count_on_normal_paths(fv, stmts):
             continue
         on = {id(n) for n, _ in p}
         out.add(sum(1 for n in nodes if n is not None and id(n) in on))
+    return out
+
+
+# ----------------------------------------------------------------------------------------------
+# specialisation of a function for fixed values of (flag) parameters
+class _NonNull:
+    """abstract value: some object that is not None (a freshly constructed array / record / instance)"""
+
+    def __repr__(self):
+        return "<non-None>"
+
+
+NONNULL = _NonNull()
+_UNKNOWN = object()
+
+
+_DECIDE: list = [None]  # the `decide` callback of the specialisation in progress
+
+
+def _abs_eval(n, env):
+    """constant / NONNULL / _UNKNOWN for an expression under env (name → python constant or NONNULL); expressions that the
+    structural evaluation leaves open are put to the specialisation's `decide` callback (truth of a test)"""
+    v = _abs_eval0(n, env)
+    if (v is _UNKNOWN or v is NONNULL) and _DECIDE[0] is not None and not (isinstance(n, ast.Name) and n.id in env):
+        r = _DECIDE[0](n)
+        if r is not None:
+            return r
+    return v
+
+
+def _abs_eval0(n, env):
+    if isinstance(n, ast.Constant):
+        return n.value
+    if isinstance(n, ast.Name):
+        return env.get(n.id, _UNKNOWN)
+    if isinstance(n, ast.NamedExpr):
+        return _abs_eval(n.value, env)
+    if isinstance(n, ast.Call):
+        d = dotted_name(n.func) or ""
+        if d.split(".")[0] in ("np", "numpy") or (d and d.split(".")[-1][:1].isupper()):
+            return NONNULL  # numpy constructors and class instantiations never give None
+        return _UNKNOWN
+    if isinstance(n, (ast.List, ast.Tuple, ast.Dict, ast.Set, ast.ListComp, ast.DictComp, ast.SetComp, ast.GeneratorExp, ast.JoinedStr, ast.Lambda)):
+        return NONNULL
+    if isinstance(n, ast.UnaryOp) and isinstance(n.op, ast.Not):
+        v = _abs_eval(n.operand, env)
+        if v is _UNKNOWN or v is NONNULL:
+            return _UNKNOWN
+        return not v
+    if isinstance(n, ast.BoolOp):
+        vals = [_abs_eval(v, env) for v in n.values]
+        if isinstance(n.op, ast.And):
+            for v in vals:
+                if v is _UNKNOWN or v is NONNULL:
+                    return _UNKNOWN
+                if not v:
+                    return v
+            return vals[-1]
+        for v in vals:
+            if v is _UNKNOWN or v is NONNULL:
+                return _UNKNOWN
+            if v:
+                return v
+        return vals[-1]
+    if isinstance(n, ast.IfExp):
+        t = _abs_eval(n.test, env)
+        if t is _UNKNOWN or t is NONNULL:
+            return _UNKNOWN
+        return _abs_eval(n.body if t else n.orelse, env)
+    if isinstance(n, ast.Compare) and len(n.ops) == 1:
+        l, r = _abs_eval(n.left, env), _abs_eval(n.comparators[0], env)
+        op = n.ops[0]
+        if isinstance(op, (ast.Is, ast.IsNot)):
+            res = _UNKNOWN
+            if l is not _UNKNOWN and r is not _UNKNOWN:
+                if l is NONNULL or r is NONNULL:
+                    other = r if l is NONNULL else l
+                    res = False if other is None else _UNKNOWN
+                elif l is None or r is None or isinstance(l, bool) or isinstance(r, bool):
+                    res = l is r
+            if res is _UNKNOWN:
+                return _UNKNOWN
+            return res if isinstance(op, ast.Is) else not res
+        if isinstance(op, (ast.Eq, ast.NotEq)) and l is not _UNKNOWN and r is not _UNKNOWN and l is not NONNULL and r is not NONNULL:
+            try:
+                return (l == r) if isinstance(op, ast.Eq) else (l != r)
+            except Exception:  # pragma: no cover
+                return _UNKNOWN
+    return _UNKNOWN
+
+
+class _Fold(ast.NodeTransformer):
+    """replace decided conditional expressions / boolean tests inside an expression"""
+
+    def __init__(self, env):
+        self.env = env
+
+    def visit_Lambda(self, n):
+        return n
+
+    def visit_IfExp(self, n):
+        t = _abs_eval(n.test, self.env)
+        if t is _UNKNOWN or t is NONNULL:
+            self.generic_visit(n)
+            return n
+        return self.visit(n.body if t else n.orelse)
+
+    def visit_Name(self, n):
+        if isinstance(n.ctx, ast.Load) and n.id in self.env and self.env[n.id] is not NONNULL and n.id in self.params:
+            return ast.copy_location(ast.Constant(value=self.env[n.id]), n)
+        return n
+
+    params: frozenset = frozenset()
+
+
+def specialize_body(body, env, params=frozenset(), decide=None):
+    """statements of ``body`` for the given constant environment: decided branches are replaced by the arm taken,
+    decided conditional expressions by their value, code after an unconditional exit is dropped.  ``params`` are the names
+    whose occurrences are replaced by their constant.  Returns (statements, environment after the block, exits)"""
+    from .normalize import always_exits
+
+    out = []
+    env = dict(env)
+
+    def assigned_in(stmts):
+        names = set()
+        for s in stmts:
+            for x in ast.walk(s):
+                if isinstance(x, ast.Name) and isinstance(x.ctx, (ast.Store, ast.Del)):
+                    names.add(x.id)
+        return names
+
+    def fold(e):
+        f = _Fold(env)
+        f.params = params
+        return f.visit(copy.deepcopy(e))
+
+    for s in body:
+        if isinstance(s, ast.If):
+            t = _abs_eval(s.test, env)
+            if t is not _UNKNOWN and t is not NONNULL:
+                sub, env, ex = specialize_body(s.body if t else s.orelse, env, params, decide)
+                out.extend(sub)
+                if ex:
+                    return out, env, True
+                continue
+            s2 = copy.copy(s)
+            s2.test = fold(s.test)
+            b1, e1, x1 = specialize_body(s.body, env, params, decide)
+            b2, e2, x2 = specialize_body(s.orelse, env, params, decide)
+            s2.body = b1 or [ast.copy_location(ast.Pass(), s)]
+            s2.orelse = b2
+            out.append(s2)
+            if x1 and x2:
+                return out, env, True
+            if x1:
+                env = e2
+            elif x2:
+                env = e1
+            else:
+                env = {k: v for k, v in e1.items() if k in e2 and (e2[k] is v or (e2[k] == v and type(e2[k]) is type(v)))}
+            continue
+        if isinstance(s, (ast.For, ast.While, ast.AsyncFor)):
+            for nm in assigned_in([s]):
+                env.pop(nm, None)
+            s2 = copy.copy(s)
+            s2.body, _e, _x = specialize_body(s.body, env, params, decide)
+            s2.body = s2.body or [ast.copy_location(ast.Pass(), s)]
+            if isinstance(s, ast.While):
+                s2.test = fold(s.test)
+            else:
+                s2.iter = fold(s.iter)
+            out.append(s2)
+            continue
+        if isinstance(s, (ast.With, ast.AsyncWith)):
+            s2 = copy.copy(s)
+            s2.items = [ast.withitem(context_expr=fold(i.context_expr), optional_vars=i.optional_vars) for i in s.items]
+            for i in s.items:
+                if i.optional_vars is not None:
+                    for nm in assigned_in([ast.Expr(value=i.optional_vars)]):
+                        env.pop(nm, None)
+            s2.body, env, ex = specialize_body(s.body, env, params, decide)
+            s2.body = s2.body or [ast.copy_location(ast.Pass(), s)]
+            out.append(s2)
+            if ex:
+                return out, env, True
+            continue
+        if isinstance(s, ast.Try):
+            for nm in assigned_in([s]):
+                env.pop(nm, None)
+            s2 = copy.copy(s)
+            s2.body = specialize_body(s.body, env, params, decide)[0] or [ast.copy_location(ast.Pass(), s)]
+            s2.handlers = []
+            for h in s.handlers:
+                h2 = copy.copy(h)
+                h2.body = specialize_body(h.body, env, params, decide)[0] or [ast.copy_location(ast.Pass(), s)]
+                s2.handlers.append(h2)
+            s2.orelse = specialize_body(s.orelse, env, params, decide)[0]
+            s2.finalbody = specialize_body(s.finalbody, env, params, decide)[0]
+            out.append(s2)
+            continue
+        if isinstance(s, (ast.FunctionDef, ast.AsyncFunctionDef, ast.ClassDef)):
+            env.pop(s.name, None)
+            out.append(s)
+            continue
+        # simple statements
+        s2 = copy.copy(s)
+        for fld in ("value", "test", "exc", "msg"):
+            v = getattr(s, fld, None)
+            if isinstance(v, ast.AST):
+                setattr(s2, fld, fold(v))
+        if isinstance(s, ast.Assign) and len(s.targets) == 1 and isinstance(s.targets[0], ast.Name):
+            v = _abs_eval(s.value, env)
+            if v is _UNKNOWN:
+                env.pop(s.targets[0].id, None)
+            else:
+                env[s.targets[0].id] = v
+        elif isinstance(s, ast.AnnAssign) and isinstance(s.target, ast.Name) and s.value is not None:
+            v = _abs_eval(s.value, env)
+            if v is _UNKNOWN:
+                env.pop(s.target.id, None)
+            else:
+                env[s.target.id] = v
+        else:
+            for nm in assigned_in([s]):
+                env.pop(nm, None)
+        # walrus targets inside the statement
+        for x in ast.walk(s):
+            if isinstance(x, ast.NamedExpr) and isinstance(x.target, ast.Name):
+                env.pop(x.target.id, None)
+        out.append(s2)
+        if isinstance(s, (ast.Return, ast.Raise, ast.Continue, ast.Break)):
+            return out, env, True
+    return out, env, bool(out) and always_exits(out)
+
+
+def specialize(model, fi, consts: dict, decide=None):
+    """FuncView of ``fi`` for fixed values of some parameters (flags): `f(…, inplace=True)` analysed as its own function.
+    ``decide(test) → True/False/None`` settles further branch tests (e.g. the emptiness of a collection)"""
+    import dataclasses
+
+    node = copy.copy(fi.node)
+    saved = _DECIDE[0]
+    _DECIDE[0] = decide
+    try:
+        body, _env, _x = specialize_body(list(fi.node.body), dict(consts), frozenset(consts), decide)
+    finally:
+        _DECIDE[0] = saved
+    node.body = body or [ast.Pass()]
+    ast.fix_missing_locations(node)
+    fi2 = dataclasses.replace(fi, node=node)
+    return fi2, FuncView(model, fi2)
+
+
+def call_keywords(fv, call):
+    """{keyword: value} of a call with `**name` resolved when name is a literal dictionary at the call; None if unresolvable"""
+    out = {}
+    for k in call.keywords:
+        if k.arg is not None:
+            out[k.arg] = k.value
+        else:
+            items = dict_items(fv, k.value, call)
+            if items is None:
+                return None
+            out.update(items)
     return out
